@@ -35,7 +35,7 @@ pub mod prelude {
     pub use qbice_storage::intern::Interned;
 
     pub use super::{
-        BothVisitor, CodecVisitor, EnumA, GenE, GenS, HashVisitor, IdVisitor, Named, SkipS, TupleS, UnitS, ma,
+        BothVisitor, CodecVisitor, EnumA, GenE, GenS, HashVisitor, IdVisitor, Named, SkipEnum, SkipGenTup, SkipNamedEnds, SkipS, SkipTupFirst, SkipTupMid, SkipTupTwo, TupleS, UnitS, ma,
         mb,
     };
     pub use crate::{gen_types::Big, util::Rng, values::Gen};
@@ -133,6 +133,119 @@ impl Gen for SkipS {
     fn rebuild(&self, r: &mut Rng) -> Self {
         Self { before: self.before, skipped: Vec::new(), after: self.after.rebuild(r) }
     }
+}
+
+
+// ---- #[serialize(skip)] in every position of every derive shape ---------------
+// (skipped fields are generated at Default and excluded from hashing, like SkipS)
+macro_rules! skip_hash {
+    ($t:ty, |$s:ident, $st:ident| $body:block) => {
+        impl StableHash for $t {
+            fn stable_hash<H: qbice_stable_hash::StableHasher + ?Sized>(&self, $st: &mut H) {
+                let $s = self;
+                $body
+            }
+        }
+    };
+}
+
+#[derive(Debug, Clone, PartialEq, Encode, Decode, Identifiable)]
+pub struct SkipTupFirst(#[serialize(skip)] pub u32, pub String, pub u16);
+skip_hash!(SkipTupFirst, |s, st| { s.1.stable_hash(st); s.2.stable_hash(st); });
+impl Gen for SkipTupFirst {
+    fn generate(r: &mut Rng, d: u32) -> Self { Self(0, Gen::generate(r, d.min(1)), Gen::generate(r, d)) }
+    fn same(&self, o: &Self) -> bool { self == o }
+    fn rebuild(&self, r: &mut Rng) -> Self { Self(0, self.1.rebuild(r), self.2) }
+}
+
+#[derive(Debug, Clone, PartialEq, Encode, Decode, Identifiable)]
+pub struct SkipTupMid(pub u64, #[serialize(skip)] pub u64, pub u64);
+skip_hash!(SkipTupMid, |s, st| { s.0.stable_hash(st); s.2.stable_hash(st); });
+impl Gen for SkipTupMid {
+    fn generate(r: &mut Rng, d: u32) -> Self { Self(Gen::generate(r, d), 0, Gen::generate(r, d)) }
+    fn same(&self, o: &Self) -> bool { self == o }
+    fn rebuild(&self, _r: &mut Rng) -> Self { self.clone() }
+}
+
+#[derive(Debug, Clone, PartialEq, Encode, Decode, Identifiable)]
+pub struct SkipTupTwo(pub i16, #[serialize(skip)] pub String, pub Vec<u8>, #[serialize(skip)] pub u8, pub bool);
+skip_hash!(SkipTupTwo, |s, st| { s.0.stable_hash(st); s.2.stable_hash(st); s.4.stable_hash(st); });
+impl Gen for SkipTupTwo {
+    fn generate(r: &mut Rng, d: u32) -> Self { Self(Gen::generate(r, d), String::new(), Gen::generate(r, d.min(1)), 0, Gen::generate(r, d)) }
+    fn same(&self, o: &Self) -> bool { self == o }
+    fn rebuild(&self, r: &mut Rng) -> Self { Self(self.0, String::new(), self.2.rebuild(r), 0, self.4) }
+}
+
+#[derive(Debug, Clone, PartialEq, Encode, Decode, Identifiable)]
+pub struct SkipGenTup<T>(#[serialize(skip)] pub u8, pub T, #[serialize(skip)] pub u16, pub u32);
+impl<T: StableHash> StableHash for SkipGenTup<T> {
+    fn stable_hash<H: qbice_stable_hash::StableHasher + ?Sized>(&self, st: &mut H) {
+        self.1.stable_hash(st);
+        self.3.stable_hash(st);
+    }
+}
+impl<T: Gen> Gen for SkipGenTup<T> {
+    fn generate(r: &mut Rng, d: u32) -> Self { Self(0, T::generate(r, d), 0, Gen::generate(r, d)) }
+    fn same(&self, o: &Self) -> bool { self.1.same(&o.1) && self.3 == o.3 && self.0 == o.0 && self.2 == o.2 }
+    fn rebuild(&self, r: &mut Rng) -> Self { Self(0, self.1.rebuild(r), 0, self.3) }
+}
+
+#[derive(Debug, Clone, PartialEq, Encode, Decode, Identifiable)]
+pub struct SkipNamedEnds {
+    #[serialize(skip)]
+    pub first: u32,
+    pub mid: String,
+    pub mid2: i8,
+    #[serialize(skip)]
+    pub last: Option<u8>,
+}
+skip_hash!(SkipNamedEnds, |s, st| { s.mid.stable_hash(st); s.mid2.stable_hash(st); });
+impl Gen for SkipNamedEnds {
+    fn generate(r: &mut Rng, d: u32) -> Self { Self { first: 0, mid: Gen::generate(r, d.min(1)), mid2: Gen::generate(r, d), last: None } }
+    fn same(&self, o: &Self) -> bool { self == o }
+    fn rebuild(&self, r: &mut Rng) -> Self { Self { first: 0, mid: self.mid.rebuild(r), mid2: self.mid2, last: None } }
+}
+
+#[derive(Debug, Clone, PartialEq, Encode, Decode, Identifiable)]
+pub enum SkipEnum {
+    A(#[serialize(skip)] u8, u32, String),
+    B(u32, #[serialize(skip)] u64, u32),
+    C {
+        x: u16,
+        #[serialize(skip)]
+        y: u16,
+        z: u16,
+    },
+    D {
+        #[serialize(skip)]
+        p: String,
+        q: Vec<u16>,
+    },
+    E,
+}
+impl StableHash for SkipEnum {
+    fn stable_hash<H: qbice_stable_hash::StableHasher + ?Sized>(&self, st: &mut H) {
+        match self {
+            Self::A(_, a, b) => { 0u8.stable_hash(st); a.stable_hash(st); b.stable_hash(st); }
+            Self::B(a, _, b) => { 1u8.stable_hash(st); a.stable_hash(st); b.stable_hash(st); }
+            Self::C { x, z, .. } => { 2u8.stable_hash(st); x.stable_hash(st); z.stable_hash(st); }
+            Self::D { q, .. } => { 3u8.stable_hash(st); q.stable_hash(st); }
+            Self::E => 4u8.stable_hash(st),
+        }
+    }
+}
+impl Gen for SkipEnum {
+    fn generate(r: &mut Rng, d: u32) -> Self {
+        match r.below(5) {
+            0 => Self::A(0, Gen::generate(r, d), Gen::generate(r, d.min(1))),
+            1 => Self::B(Gen::generate(r, d), 0, Gen::generate(r, d)),
+            2 => Self::C { x: Gen::generate(r, d), y: 0, z: Gen::generate(r, d) },
+            3 => Self::D { p: String::new(), q: Gen::generate(r, d.min(1)) },
+            _ => Self::E,
+        }
+    }
+    fn same(&self, o: &Self) -> bool { self == o }
+    fn rebuild(&self, _r: &mut Rng) -> Self { self.clone() }
 }
 
 #[derive(Debug, Clone, PartialEq, Encode, Decode, StableHash, Identifiable)]
